@@ -73,6 +73,55 @@ func runC12(c *Ctx) {
 		r.Check("R12.4", FuncName(fs.Fn), "store propertyImpl.properties", fs.St.Pos(), ok, "an owner's chain is written by something other than its own SetProperty")
 	}
 	r.Floor("R12.4", "writers of the chain head", np, 1)
+	// ... nor is an owner's property holder ever assigned as a whole (a new column that starts out with another
+	// owner's chain reports that owner's settings as its own)
+	pimpl := namedOf(set.Params[0].Type().(*types.Pointer).Elem())
+	nwhole := 0
+	for _, fn := range c.LibFuncs() {
+		eachInstr(fn, func(in ssa.Instruction) {
+			st, ok := in.(*ssa.Store)
+			if !ok || pimpl == nil || namedOf(st.Val.Type()) != pimpl {
+				return
+			}
+			nwhole++
+			zero := false
+			if k, isK := st.Val.(*ssa.Const); isK && k.Value == nil {
+				zero = true
+			}
+			r.Check("R12.4", FuncName(fn), fmt.Sprintf("whole property holder assigned #%d", nwhole), st.Pos(), zero, "an owner is given another owner's property chain: what was set on one shows as set on the other")
+		})
+	}
+	// every owner answers gets and sets with the one implementation (promoted from the embedded holder): an owner
+	// type that declares its own GetProperty/SetProperty can answer with something other than what was set on it
+	if pimpl != nil {
+		for _, name := range []string{"GetProperty", "SetProperty"} {
+			for _, fn := range c.LibFuncs() {
+				if fn.Name() != name || fn.Signature.Recv() == nil || fn.Synthetic != "" {
+					continue
+				}
+				rt := fn.Signature.Recv().Type()
+				if pt, isP := rt.(*types.Pointer); isP {
+					rt = pt.Elem()
+				}
+				n := namedOf(rt)
+				if n == nil || !inModuleType(n) || n == pimpl {
+					continue
+				}
+				// renderer wrappers embed the Table interface and forward: only types that embed the holder matter
+				if stt, isS := n.Underlying().(*types.Struct); isS {
+					embeds := false
+					for i := 0; i < stt.NumFields(); i++ {
+						if stt.Field(i).Embedded() && namedOf(stt.Field(i).Type()) == pimpl {
+							embeds = true
+						}
+					}
+					if embeds {
+						r.Check("R12.3", FuncName(fn), "owner type declares its own "+name, fn.Pos(), false, "gets and sets on this owner no longer go through the shared implementation: a get can report a value that was never set on this owner")
+					}
+				}
+			}
+		}
+	}
 
 	// ---- R12.2 SetProperty
 	{
@@ -476,6 +525,20 @@ func c12StripRebuilds(c *Ctx, strip *ssa.Function) {
 				}
 				n++
 				ok := recursive || loopDepth(al.Block()) > 0
+				if ok && !recursive {
+					// in a rebuilding loop every new link must hang on the chain built so far
+					chainF := fieldNamed(al, "chain")
+					for _, fs := range c.StoresTo(chainF) {
+						if fs.Base != ssa.Value(al) {
+							continue
+						}
+						h := innermostLoopHeader(al.Block())
+						if h != nil && !carriedInto(fs.St.Val, h, map[ssa.Value]bool{}) {
+							r.Check("R12.2", FuncName(strip), fmt.Sprintf("return #%d: each re-created link is hung on the chain rebuilt so far", i+1), fs.St.Pos(), false,
+								"every new link is hung on the same tail: only the last one survives, the links in between are dropped")
+						}
+					}
+				}
 				r.Check("R12.2", FuncName(strip), fmt.Sprintf("return #%d: the links above the removed key can all be re-created (new links are made recursively or in a loop)", i+1), al.Pos(), ok,
 					"only a bounded number of links is rebuilt: with more links above the removed key, the others (the owner's other properties) are dropped")
 			}
@@ -484,4 +547,22 @@ func c12StripRebuilds(c *Ctx, strip *ssa.Function) {
 	if n == 0 {
 		r.Note("R12.2: strip never returns a chain headed by a link it allocated")
 	}
+}
+
+func inModuleType(n *types.Named) bool {
+	return n.Obj().Pkg() != nil && (n.Obj().Pkg().Path() == modPath || strings.HasPrefix(n.Obj().Pkg().Path(), modPath+"/"))
+}
+
+// fieldNamed: the field called name of the struct al allocates.
+func fieldNamed(al *ssa.Alloc, name string) *types.Var {
+	st, ok := al.Type().(*types.Pointer).Elem().Underlying().(*types.Struct)
+	if !ok {
+		return nil
+	}
+	for i := 0; i < st.NumFields(); i++ {
+		if st.Field(i).Name() == name {
+			return st.Field(i)
+		}
+	}
+	return nil
 }
